@@ -124,7 +124,31 @@ def r1_inventory(ctx):
         for c in facts.crates[key]['consts']:
             if c.get('item_kind', '').startswith('Static'):
                 statics.append(c['path'])
-    ctx.ob(rule, 'chess::*', 'no static items (shared global state)', not statics, found=statics, expected=[])
+    # a static is shared global state of the tasks only if code reachable from a task refers to it (a lazily compiled regex of the
+    # input handler is not)
+    def statics_of(f):
+        out = set()
+
+        def walk(x):
+            if isinstance(x, dict):
+                if 'static' in x and 'ptr' in x:
+                    out.add(x['static'])
+                for v in x.values():
+                    walk(v)
+            elif isinstance(x, list):
+                for v in x:
+                    walk(v)
+        walk(f.blocks)
+        return out
+    reach = facts.reachable_fns([n for n in PAR_CLOSURES if n in facts.fns] + [SEARCH, MINIMAX])
+    touched = {}
+    for rn in reach:
+        rf = facts.fns.get(rn)
+        if rf is not None and rf.crate in ('chess', 'common'):
+            for st_ in statics_of(rf):
+                touched.setdefault(st_, []).append(rn)
+    ctx.ob(rule, 'chess::*', 'no static item is referred to by code the parallel tasks can reach (shared global state)', not touched,
+           found={k: sorted(v)[:3] for k, v in touched.items()} or {'statics elsewhere': statics}, expected={})
     # thread-locals / statics referenced from MIR
     tls = []
     for f in facts.lib_fns('chess'):
@@ -235,27 +259,6 @@ def r4_lock_order(ctx):
 _SIG_CACHE = {}
 
 
-def _normalise(x, ren):
-    """path-local numbering of call instances / unknowns (the engine numbers them globally across paths) and no epochs, so that two paths
-    can be compared for being the same up to one decision"""
-    if isinstance(x, tuple):
-        if len(x) == 2 and x[0] == 'e' and isinstance(x[1], int):
-            return ('e', 0)
-        if len(x) == 3 and x[0] == 'L' and isinstance(x[1], int) and isinstance(x[2], int):
-            return ('L', ren.setdefault(('f', x[1]), len(ren)), x[2])
-        if len(x) == 2 and x[0] in ('havoc', 'hv') and isinstance(x[1], int):
-            return (x[0], ren.setdefault(('u', x[1]), len(ren)))
-        if len(x) >= 4 and x[0] == 'call' and isinstance(x[3], int) and not isinstance(x[3], bool):
-            head = ('call', x[1], _normalise(x[2], ren), ren.setdefault(('u', x[3]), len(ren)))
-            return head + tuple(_normalise(y, ren) for y in x[4:])
-        return tuple(_normalise(y, ren) for y in x)
-    if isinstance(x, list):
-        return tuple(_normalise(y, ren) for y in x)
-    if isinstance(x, dict):
-        return tuple(sorted((repr(k), _normalise(v, ren)) for k, v in x.items()))
-    return x
-
-
 def self_update(outs, o, i, c):
     """the decision at condition i of path o (which reads counter c) only decides whether / what is written to counter c itself (a running
     maximum, a saturating count): some path decides it the other way and is otherwise the same path - same remaining conditions, same
@@ -271,24 +274,11 @@ def self_update(outs, o, i, c):
                     ids.add(e[3])
         return ids
 
-    def sig(p, skip):
+    def drop(p, e):
         gc = guard_calls(p)
-        evs = [e for e in p.events
-               if not (e[0] == 'write' and any(x[0] == 'call' and 'Guard' in x[1] and (x[3] in gc or lock_field(x) == c) for x in subterms(e[1])))
-               and not (e[0] == 'call' and e[3] in gc)]
-        # without source span and epoch stamp; a dropped guard by its type (its value term is opaque after a `&mut` use)
-        evs = [(e[:5] + (e[6],) if e[0] == 'call' and len(e) > 6 else (e[:2] if e[0] == 'drop' else e)) for e in evs]
-        ren = {}
-        return _normalise((p.kind, [x for j, x in enumerate(p.conds) if j != skip], evs, p.value), ren)
-    key = (id(outs), i, repr(_normalise(o.conds[i][0], {})), c)
-    if key not in _SIG_CACHE:
-        table = {}
-        for p in outs:
-            if len(p.conds) > i and _normalise(p.conds[i][0], {}) == _normalise(o.conds[i][0], {}):
-                table.setdefault(sig(p, i), set()).add(repr(p.conds[i][1]))
-        _SIG_CACHE.clear()
-        _SIG_CACHE[key] = table
-    return len(_SIG_CACHE[key].get(sig(o, i), ())) >= 2
+        return (e[0] == 'write' and any(x[0] == 'call' and 'Guard' in x[1] and (x[3] in gc or lock_field(x) == c) for x in subterms(e[1]))) \
+            or (e[0] == 'call' and e[3] in gc)
+    return decides_only(outs, o, i, drop, tag=c)
 
 
 def r2_non_interference(ctx):
